@@ -17,7 +17,7 @@ pub fn info() -> PropInfo {
     PropInfo {
         id: "C18",
         level: "exploration",
-        rule: "fuzz cases = 1-3 sources (+ include targets + pre-existing generated files, and in 12 % of the cases a directory symbolic link to a sibling, to the parent or to the directory itself) x mode {build, needed, verify, clean} x threads 0..16 x recursive on/off, executed in-process with the panic hook and the deadlock predicate armed. Source generators: (a) grammar-aware hostile lines outside the judged domain (Unicode blanks U+00A0/U+2003/VT/FF as indentation and around names, multi-byte prefixes followed by space-only continuation lines of every length, empty arguments, tag names that prefix each other, 20 kB lines, deep continuation blocks, directive look-alikes); (b) byte-level mutation of well-formed sources (invalid UTF-8, NUL, lone CR, truncation inside multi-byte characters, random splices); the same mutations applied to include targets and to leftovers at output/temp paths. Commands are neutralised by configuring /bin/echo as the shell (the run path is still exercised), absolute temp targets are rewritten to stay inside the scratch tree. CLI part: option values (-j 0, -j 1, -j 16, huge -j, empty / unresolvable shell, empty input string, missing base, no inputs). Non-trivial = the case contains at least one directive-like line or a non-UTF-8 byte; distinct = distinct case hashes.",
+        rule: "fuzz cases = 1-3 sources (+ include targets + pre-existing generated files, and in 12 % of the cases a directory symbolic link to a sibling, to the parent or to the directory itself) x mode {build, needed, verify, clean} x threads 0..16 x recursive on/off, executed in-process with the panic hook and the deadlock predicate armed. Source generators: (a) grammar-aware hostile lines outside the judged domain (Unicode blanks U+00A0/U+2003/VT/FF as indentation and around names, multi-byte prefixes followed by space-only continuation lines of every length, empty arguments, tag names that prefix each other, 20 kB lines, deep continuation blocks, directive look-alikes); (b) byte-level mutation of well-formed sources (invalid UTF-8, NUL, lone CR, truncation inside multi-byte characters, random splices); the same mutations applied to include targets and to leftovers at output/temp paths. Commands are neutralised by configuring /bin/echo as the shell (the run path is still exercised), absolute temp targets are rewritten to stay inside the scratch tree. CLI part: option values (-j 0, -j 1, -j 16, huge -j, empty / unresolvable shell, empty input string, missing base, no inputs). Non-trivial = the case contains at least one directive-like line or a non-UTF-8 byte; distinct = distinct case hashes. Later additions: the empty input list; nine pipe-heavy real commands x three modes x two thread counts; CLI runs started in a removed working directory; file links named like sources that point at plain files; the rawnames scenario (non-UTF-8 names) judged for panics and hangs.",
         assumptions: &["hangs are decided by the logical deadlock predicate of the hooks; a wall-clock watchdog expiry is reported as inconclusive", "commands are not fuzzed (shell = /bin/echo): a non-terminating command is out of domain"],
         floor: (3000, 100_000),
         shards: (16, 16),
